@@ -13,4 +13,5 @@ var Registry = map[string]func(args []string){
 	"neg":      Neg,
 	"client":   Client,
 	"path":     PathEngine,
+	"readdir":  ReaddirEngine,
 }
